@@ -113,7 +113,10 @@ def gen_doc(kind, variant):
         objs[10] = W.D(Type=W.N("Font"), Subtype=W.N("Type0"), BaseFont=W.N("SharedCID"), Encoding=enc,
                        DescendantFonts=[W.R(12)])
         raw = "あいう漢字".encode("cp932")
-        pages = [b"BT /F1 12 Tf 50 700 Td <%s> Tj ET" % raw.hex().encode(), b"BT /F1 12 Tf 50 650 Td <%s> Tj ET" % raw[:4].hex().encode()]
+        # (the last string of the second document ends in the middle of a two-byte code: where one string stops must not
+        # matter to the next string decoded with the same, shared, CMap)
+        pages = [b"BT /F1 12 Tf 50 700 Td <%s> Tj ET" % raw.hex().encode(),
+                 b"BT /F1 12 Tf 50 650 Td <%s> Tj ET" % (raw[:4] + (b"\x82" if variant % 2 else b"")).hex().encode()]
     elif kind == "sharedcontents":
         # both pages name the same indirect /Contents array: what rendering one page does with the list of streams must
         # not be visible to the other page, to a second rendering of the same page, or depend on caching
